@@ -2,6 +2,7 @@ package c17
 
 import (
 	"fmt"
+	"strings"
 	"testing"
 
 	"pgregory.net/rapid"
@@ -18,6 +19,8 @@ type op struct {
 	Run   func(k *call)
 	Heavy bool // RSA private-key operation inside (milliseconds)
 	DstOp bool // takes an explicit AEAD dst
+	Pk    int  // number of []byte arguments that can be sub-slices of one caller buffer (memCase.Pack numbers them)
+	PkArg []string
 }
 
 func fixed(m []string) func(string) []string { return func(string) []string { return m } }
@@ -43,23 +46,37 @@ var (
 // crypto/aescbcaead that takes a []byte (the aescbcaead constructors are exercised
 // through Seal/Open: the key they are given is one of the checked arguments).
 var ops = []op{
-	{Name: "crypto.EncryptSymmetric", Algs: symAlgs, Modes: symEncModes, Run: func(k *call) { k.symEnc("sym") }},
-	{Name: "crypto.Encrypt", Algs: symAlgs, Modes: symEncModes, Run: func(k *call) { k.symEnc("generic") }},
-	{Name: "crypto.DecryptSymmetric", Algs: symAlgs, Modes: symDecModes, Run: func(k *call) { k.symDec("sym") }},
-	{Name: "crypto.Decrypt", Algs: symAlgs, Modes: symDecModes, Run: func(k *call) { k.symDec("generic") }},
-	{Name: "crypto.EncryptPublicKey", Algs: rsaAlgs, Modes: fixed(rsaEncModes), Run: func(k *call) { k.rsaEnc("pub") }},
-	{Name: "crypto.Encrypt(rsa)", Algs: rsaAlgs, Modes: fixed(rsaEncModes), Run: func(k *call) { k.rsaEnc("generic") }},
-	{Name: "crypto.DecryptPrivateKey", Algs: rsaAlgs, Modes: fixed(rsaDecModes), Run: func(k *call) { k.rsaDec("pub") }, Heavy: true},
-	{Name: "crypto.Decrypt(rsa)", Algs: rsaAlgs, Modes: fixed(rsaDecModes), Run: func(k *call) { k.rsaDec("generic") }, Heavy: true},
+	{Name: "crypto.EncryptSymmetric", Algs: symAlgs, Modes: symEncModes, Run: func(k *call) { k.symEnc("sym") }, PkArg: symEncArgs},
+	{Name: "crypto.Encrypt", Algs: symAlgs, Modes: symEncModes, Run: func(k *call) { k.symEnc("generic") }, PkArg: symEncArgs},
+	{Name: "crypto.DecryptSymmetric", Algs: symAlgs, Modes: symDecModes, Run: func(k *call) { k.symDec("sym") }, PkArg: symDecArgs},
+	{Name: "crypto.Decrypt", Algs: symAlgs, Modes: symDecModes, Run: func(k *call) { k.symDec("generic") }, PkArg: symDecArgs},
+	{Name: "crypto.EncryptPublicKey", Algs: rsaAlgs, Modes: fixed(rsaEncModes), Run: func(k *call) { k.rsaEnc("pub") }, PkArg: rsaEncArgs},
+	{Name: "crypto.Encrypt(rsa)", Algs: rsaAlgs, Modes: fixed(rsaEncModes), Run: func(k *call) { k.rsaEnc("generic") }, PkArg: rsaEncArgs},
+	{Name: "crypto.DecryptPrivateKey", Algs: rsaAlgs, Modes: fixed(rsaDecModes), Run: func(k *call) { k.rsaDec("pub") }, Heavy: true, PkArg: rsaDecArgs},
+	{Name: "crypto.Decrypt(rsa)", Algs: rsaAlgs, Modes: fixed(rsaDecModes), Run: func(k *call) { k.rsaDec("generic") }, Heavy: true, PkArg: rsaDecArgs},
 	{Name: "crypto.SignPrivateKey", Algs: sigAlgs, Modes: fixed(signModes), Run: func(k *call) { k.sign() }, Heavy: true},
-	{Name: "crypto.VerifyPublicKey", Algs: sigAlgs, Modes: fixed(verifyModes), Run: func(k *call) { k.verify() }, Heavy: true},
+	{Name: "crypto.VerifyPublicKey", Algs: sigAlgs, Modes: fixed(verifyModes), Run: func(k *call) { k.verify() }, Heavy: true, PkArg: []string{"digest", "signature"}},
 	{Name: "crypto.ParseKey", Algs: parseKeyFormats, Modes: fixed(parseKeyModes), Run: func(k *call) { k.parseKey() }},
 	{Name: "aeskw.Wrap", Algs: kekAlgs, Modes: fixed(wrapModes), Run: func(k *call) { k.wrap() }},
 	{Name: "aeskw.Unwrap", Algs: kekAlgs, Modes: fixed(unwrapModes), Run: func(k *call) { k.unwrap() }},
 	{Name: "padding.PadPKCS7", Algs: padAlgs, Modes: fixed(padModes), Run: func(k *call) { k.pad() }},
 	{Name: "padding.UnpadPKCS7", Algs: padAlgs, Modes: fixed(unpadModes), Run: func(k *call) { k.unpad() }},
-	{Name: "aescbcaead.Seal", Algs: aeadAlgs, Modes: fixed(sealModes), Run: func(k *call) { k.seal() }, DstOp: true},
-	{Name: "aescbcaead.Open", Algs: aeadAlgs, Modes: fixed(openModes), Run: func(k *call) { k.open() }, DstOp: true},
+	{Name: "aescbcaead.Seal", Algs: aeadAlgs, Modes: fixed(sealModes), Run: func(k *call) { k.seal() }, DstOp: true, PkArg: []string{"key", "plaintext", "nonce", "additionalData"}},
+	{Name: "aescbcaead.Open", Algs: aeadAlgs, Modes: fixed(openModes), Run: func(k *call) { k.open() }, DstOp: true, PkArg: []string{"key", "ciphertext", "nonce", "additionalData"}},
+}
+
+// the []byte arguments that memCase.Pack numbers, in declaration order
+var (
+	symEncArgs = []string{"plaintext", "nonce", "associatedData"}
+	symDecArgs = []string{"ciphertext", "nonce", "tag", "associatedData"}
+	rsaEncArgs = []string{"plaintext", "associatedData"}
+	rsaDecArgs = []string{"ciphertext", "associatedData"}
+)
+
+func init() {
+	for i := range ops {
+		ops[i].Pk = len(ops[i].PkArg)
+	}
 }
 
 func opByName(n string) op {
@@ -73,22 +90,41 @@ func opByName(n string) op {
 
 // checkMem runs one case and compares every byte the callee had no right to write.
 func checkMem(c memCase) (string, caseStat) {
+	msg, st, _ := runMem(c)
+	return msg, st
+}
+
+// runMem is checkMem that also hands out the arena of the call (for the checks over sequences of calls).
+func runMem(c memCase) (string, caseStat, *arena) {
 	var st caseStat
 	k := &call{c: c, a: &arena{seed: c.Seed}}
 	opByName(c.Op).Run(k)
 	if k.harness != "" {
-		return "harness: " + k.harness, st
+		return "harness: " + k.harness, st, k.a
 	}
 	if msg := k.a.diff(); msg != "" {
-		return fmt.Sprintf("%s wrote to memory owned by the caller: %s (call returned err=%v panic=%v)", c.Op, msg, k.err, k.pnc), st
+		return fmt.Sprintf("%s wrote to memory owned by the caller: %s (call returned err=%v panic=%v)", c.Op, msg, k.err, k.pnc), st, k.a
 	}
 	if k.keyMsg != "" {
-		return c.Op + ": " + k.keyMsg, st
+		return c.Op + ": " + k.keyMsg, st, k.a
+	}
+	lay := k.a.layoutClasses()
+	for _, l := range lay {
+		if l == "layout.overlap" && c.Mode != "ok" {
+			k.reached = false // overlapping arguments change each other's content: only a call that succeeded is known to have got to the primitive
+		}
 	}
 	st.nontrivial = k.reached && k.a.anySpare()
 	st.classes = append(st.classes, "op."+c.Op, "mode."+c.Mode)
+	st.classes = append(st.classes, lay...)
+	if len(c.Pack) > 0 {
+		st.classes = append(st.classes, "cap."+c.Cap)
+	}
 	if k.reached {
 		st.classes = append(st.classes, "reached")
+		if len(c.Pack) > 0 {
+			st.classes = append(st.classes, "reached.packed")
+		}
 	}
 	if k.pnc != nil {
 		st.classes = append(st.classes, "call.panicked")
@@ -96,10 +132,13 @@ func checkMem(c memCase) (string, caseStat) {
 	for _, r := range k.results {
 		for _, n := range k.a.aliases(r) {
 			// informational: the result lives in the argument's memory (expected for UnpadPKCS7 and for an explicit dst)
+			if strings.HasPrefix(n, "packed(") {
+				n = "packed"
+			}
 			st.classes = append(st.classes, "result-aliases."+c.Op+"."+n)
 		}
 	}
-	return "", st
+	return "", st, k.a
 }
 
 type caseStat struct {
@@ -156,6 +195,40 @@ func TestMemSweep(t *testing.T) {
 	}
 }
 
+// drawCase draws one call of o: algorithm, path, lengths, spare capacities, dst form and the layout of the
+// arguments in the caller's memory.
+func drawCase(rt *rapid.T, o op) memCase {
+	c := memCase{Op: o.Name, Alg: rapid.SampledFrom(o.Algs).Draw(rt, "alg")}
+	modes := o.Modes(c.Alg)
+	c.Mode = modes[0]
+	if rapid.Bool().Draw(rt, "failurePath") {
+		c.Mode = rapid.SampledFrom(modes).Draw(rt, "mode")
+	}
+	c.Len = rapid.OneOf(rapid.SampledFrom(sweepLens), rapid.IntRange(0, 200)).Draw(rt, "len")
+	c.AadLen = rapid.OneOf(rapid.Just(0), rapid.IntRange(0, 40)).Draw(rt, "aadLen")
+	c.Spare = rapid.SliceOfN(rapid.OneOf(rapid.IntRange(0, 64), rapid.SampledFrom([]int{0, 1, 15, 16, 17, 32, 64})), 1, 6).Draw(rt, "spare")
+	if o.DstOp {
+		c.Dst = rapid.SampledFrom([]string{"nil", "sep", "inplace"}).Draw(rt, "dst")
+		c.DstLen = rapid.IntRange(0, 20).Draw(rt, "dstLen")
+	}
+	c.NilEmpty = rapid.Bool().Draw(rt, "nilEmpty")
+	if o.Pk >= 2 && rapid.Bool().Draw(rt, "packed") {
+		idx := make([]int, o.Pk)
+		for i := range idx {
+			idx[i] = i
+		}
+		n := rapid.IntRange(2, o.Pk).Draw(rt, "packN")
+		c.Pack = rapid.Permutation(idx).Draw(rt, "packOrder")[:n]
+		// mostly adjacent; sometimes a few bytes between the arguments, sometimes overlapping arguments
+		c.Gap = rapid.SliceOfN(rapid.OneOf(rapid.Just(0), rapid.Just(0), rapid.IntRange(1, 40), rapid.IntRange(-40, -1)), n-1, n-1).Draw(rt, "gap")
+		c.Cap = rapid.SampledFrom(capModes).Draw(rt, "cap")
+	}
+	c.Seed = rapid.Uint64().Draw(rt, "seed")
+	return c
+}
+
+var capModes = []string{"end", "gap", "len"}
+
 func TestMemRapid(t *testing.T) {
 	sec := vk.Sec("MemRapid")
 	var light, heavy []op
@@ -172,21 +245,7 @@ func TestMemRapid(t *testing.T) {
 			pool = heavy
 		}
 		o := pool[rapid.IntRange(0, len(pool)-1).Draw(rt, "op")]
-		c := memCase{Op: o.Name, Alg: rapid.SampledFrom(o.Algs).Draw(rt, "alg")}
-		modes := o.Modes(c.Alg)
-		c.Mode = modes[0]
-		if rapid.Bool().Draw(rt, "failurePath") {
-			c.Mode = rapid.SampledFrom(modes).Draw(rt, "mode")
-		}
-		c.Len = rapid.OneOf(rapid.SampledFrom(sweepLens), rapid.IntRange(0, 200)).Draw(rt, "len")
-		c.AadLen = rapid.OneOf(rapid.Just(0), rapid.IntRange(0, 40)).Draw(rt, "aadLen")
-		c.Spare = rapid.SliceOfN(rapid.OneOf(rapid.IntRange(0, 64), rapid.SampledFrom([]int{0, 1, 15, 16, 17, 32, 64})), 1, 6).Draw(rt, "spare")
-		if o.DstOp {
-			c.Dst = rapid.SampledFrom([]string{"nil", "sep", "inplace"}).Draw(rt, "dst")
-			c.DstLen = rapid.IntRange(0, 20).Draw(rt, "dstLen")
-		}
-		c.NilEmpty = rapid.Bool().Draw(rt, "nilEmpty")
-		c.Seed = rapid.Uint64().Draw(rt, "seed")
+		c := drawCase(rt, o)
 		msg, st := checkMem(c)
 		if msg != "" {
 			rt.Fatalf("C17 caller memory violated: %s\ncase: %s", msg, c)
